@@ -197,6 +197,9 @@ func (s *System) Dump(st *State) string {
 		for _, l := range p.Locals {
 			// pcal makes only the process-level variables of `process (P = id)` plain; procedure
 			// parameters/locals and `stack` stay functions of self
+			if l.Spec == "" {
+				continue // carried between steps but not a variable of the translation (e.g. a procedure's ref parameter)
+			}
 			single = p.Single && strings.HasPrefix(l.Res, p.Arch.Name+".")
 			add(l.Spec, p.Self.String(), st.P[i].Locals[l.Res].String())
 		}
